@@ -193,11 +193,17 @@ func c10OpenThenGone(modes []c04Mode) func(x *X) {
 			srv.Close()
 		}
 		vs.Quiesce()
+		if !mode.sys.poll {
+			for _, t := range blockedThreads(nil) {
+				x.Fail("C20/thread-left-behind", "after the client disconnected (script %d) and the server was closed: %s", script, t)
+			}
+		}
 	}
 }
 
 func init() {
-	register(&Scenario{Prop: "C10", Name: "c10/open-then-disconnect", Quick: []Bound{{1, 0}, {2, 0}}, Thorough: []Bound{{3, 0}}, Body: c10OpenThenGone(c08SrvModes)})
+	register(&Scenario{Prop: "C10", Name: "c10/open-then-disconnect", Quick: []Bound{{1, 0}, {2, 0}}, Thorough: []Bound{{3, 0}}, Body: c10OpenThenGone(c08SrvModes), OnlyKeys: []string{"C10/", "panic/", "livelock/"}})
+	register(&Scenario{Prop: "C20", Name: "c20/server-after-abrupt-clients", Quick: []Bound{{1, 0}, {2, 0}}, Thorough: []Bound{{3, 0}}, Body: c10OpenThenGone(c08SrvModes[:3]), OnlyKeys: []string{"C20/", "panic/", "livelock/"}})
 	register(&Scenario{Prop: "C10", Name: "c10/servecodec-atomic", Quick: []Bound{{1, 0}}, Thorough: []Bound{{2, 0}}, Body: c10Body(sysModes[:1]), Atomic: true})
 	register(&Scenario{Prop: "C10", Name: "c10/servecodec-clientpipelining", Quick: []Bound{{2, 0}}, Thorough: []Bound{{3, 0}}, Body: c10BodyCli(sysModes[:1], true)})
 	register(&Scenario{Prop: "C10", Name: "c10/servecodec", Quick: []Bound{{1, 0}, {2, 0}}, Thorough: []Bound{{3, 0}}, Body: c10Body(sysModes[:1])})
